@@ -482,7 +482,8 @@ func c36BuildIndexUncached(w *c36World, variants []c36Doc) *c36Index {
 		return idx
 	}
 	for v, d := range variants {
-		content := "before " + d.content + "\n" +
+		content := d.content + "\n" + // the file BEGINS with the payload (what content sniffing looks at)
+			"before " + d.content + "\n" +
 			d.content + fmt.Sprintf(" needle%04d ", v) + d.content + "\n" +
 			// the same match on a long line: the result page cuts the text before and after a match
 			// to 100 bytes each (LimitPre/LimitPost), the payload lies inside the part that is kept
@@ -623,6 +624,9 @@ func c36Fetch(w *c36World) ([]*c36Page, error) {
 	pv.Set("q", w.query)
 	pv.Set("num", w.num)
 	pages = append(pages, getP("print-direct", "/print?"+pv.Encode()))
+	// the raw view of the same file: index content served as is, so it must be declared as plain text
+	pv.Set("format", "raw")
+	pages = append(pages, getP("print-raw", "/print?"+pv.Encode()))
 	bv := url.Values{}
 	bv.Set("q", w.query)
 	pages = append(pages, getT("box", "/?"+bv.Encode()))
@@ -881,6 +885,9 @@ func c36TwinPages(twin *c36World) (map[string]*c36TwinPage, error) {
 				tp.failure = fmt.Sprintf("GET %s\nstatus %d\nbody: %.400q", p.url, p.status, p.body)
 				continue
 			}
+			if p.name == "print-raw" {
+				continue // not an HTML page
+			}
 			an, err := c36Analyse(p.body)
 			if err != nil {
 				tp.failure = fmt.Sprintf("GET %s\nunparsable HTML: %v", p.url, err)
@@ -967,6 +974,18 @@ func c36RunCase(c *c36Case) (findings []c36Finding, nontrivial []string, err err
 		}
 		if tp == nil {
 			// the twin did not get this far (its results page failed, reported above)
+			continue
+		}
+		if p.name == "print-raw" {
+			if !strings.HasPrefix(p.ctype, "text/plain") || !p.nosniff {
+				findings = append(findings, c36Finding{p.name, "raw file view is not served as text/plain+nosniff",
+					fmt.Sprintf("GET %s\nContent-Type %q nosniff=%v\nbody begins: %.200q", p.url, p.ctype, p.nosniff, p.body)})
+			}
+			for i := range c.slots {
+				if c36Reached(p.body, c.payloads[i].text) {
+					nontrivial = append(nontrivial, p.name+"|"+c.slots[i]+"="+c.payloads[i].name)
+				}
+			}
 			continue
 		}
 		an, err := c36Analyse(p.body)
